@@ -94,6 +94,16 @@ pub fn shard_run(prop: &str, tier: &str, seed: u64, replay: Option<&serde_json::
         if prop == "C11" && (!scn.name.contains("SNAP") || scn.prefix == Prefix::NeverSeen || scn.prefix == Prefix::Empty) {
             continue;
         }
+        // C01 under overlap: only AddVersion requests race (incl. the very first requests of a
+        // new client): never two accepted on one parent, no accepted version off the chain
+        if prop == "C01" && !(scn.name.starts_with("AV||AV") || scn.name.starts_with("AV;AV||AV")) {
+            continue;
+        }
+        // C08 under overlap: GetChildVersion(p) overlapping an AddVersion(p) must answer what some
+        // one-at-a-time order gives (not-found or the new child, never gone)
+        if prop == "C08" && !scn.name.starts_with("AV||GCV") {
+            continue;
+        }
         // C18 under overlap: a snapshot upload that must be declined (an older version than the one
         // a concurrent upload stores) must leave the state untouched
         if prop == "C18" && (!(scn.name.starts_with("SNAP(latest)||SNAP(older)") || scn.name.starts_with("SNAP||SNAP")) || scn.prefix == Prefix::NeverSeen || scn.prefix == Prefix::Empty) {
